@@ -1,9 +1,10 @@
 """Bulirsch-Stoer order / step-size controller worker (spec/BSControl.tla).  usage: w_bscontrol.py <out.ndjson> <seed> <nruns>
 
 Hook events (src/integrator_bs.c, guard REBOUND_VERIF=1):
-  bs_beg  dt  target_iter(before selection)  target_iter  previous_rejected  first_or_last_step  eps_rel
+  bs_beg  dt  target_iter(before selection)  target_iter  previous_rejected  first_or_last_step  eps_rel  min_dt
   bs_it   k  ok  error  optimal_step[k]  cost_per_time_unit[k]            (one per pass of the extrapolation loop)
   bs_end  reject  k  target_iter  dt_proposed  previous_rejected  first_or_last_step  min_dt  max_dt
+  bs_reset                                                            (reb_integrator_bs_reset)
   bs_err  dt_proposed  target_iter  previous_rejected  first_or_last_step (NaN error estimate: error status)
 """
 import ctypes
@@ -53,12 +54,19 @@ def convert(raw):
     target = None
     for name, a in raw:
         if name == "bs_beg":
-            dt_in, tprev, t0, prej, fol, eps = a
+            if cptu is not None:
+                # the previous call returned early (set-up error): drop its events
+                while ev and ev[-1]["ev"] != "beg":
+                    ev.pop()
+                if ev:
+                    ev.pop()
+            dt_in, tprev, t0, prej, fol, eps, mn0 = a
             cptu = {0: 0.0}
             opt = {}
             target = int(t0)
             ev.append({"ev": "beg", "tprev": int(tprev), "t0": int(t0), "prevRej": bool(prej), "fol": bool(fol),
-                       "t0ok": (int(tprev) == int(t0)) if int(tprev) != 0 else int(t0) == initial_target(eps), "num": [dt_in, eps]})
+                       "t0ok": (int(tprev) == int(t0)) if int(tprev) != 0 else int(t0) == initial_target(eps), "floor": mn0 != 0.0 and abs(dt_in) <= mn0,
+                       "num": [dt_in, eps, mn0]})
         elif name == "bs_it":
             if cptu is None:
                 continue
@@ -103,6 +111,8 @@ def convert(raw):
             for j, o in opt.items():
                 cands["opt%d" % j] = o
                 cands["min%d" % j] = min(abs(dt_in), o)
+                for j2, o2 in opt.items():
+                    cands["min2_%d_%d" % (j, j2)] = min(o, o2)
                 for a2 in range(1, SEQLEN):
                     cands["scaled%d_%d" % (j, a2)] = o * CPS[a2] / CPS[j]
             srcs = sorted(n for n, v in cands.items() if fin(v) == prop)
@@ -113,6 +123,9 @@ def convert(raw):
                        "num": [dt_in, prop, mn, mx]})
             target = int(tgt)
             cptu = None
+        elif name == "bs_reset":
+            if cptu is None:
+                ev.append({"ev": "reset"})
         elif name == "bs_err":
             prop, tgt, prej, fol = a
             last = [e for e in ev if e["ev"] == "beg"][-1]
@@ -200,7 +213,7 @@ def main():
                 sim.ri_trace.peri_mode = cfg["peri_mode"] = rng.choice([0, 1, 2])
             addr = ctypes.addressof(sim)
             off = os.path.getsize(TRACE) if os.path.exists(TRACE) else 0
-            init = {"target": int(sim.ri_bs.target_iter), "prevRej": bool(sim.ri_bs.previous_rejected), "fol": bool(sim.ri_bs.first_or_last_step)}
+            init = {"target": int(sim.ri_bs._target_iter), "prevRej": bool(sim.ri_bs._previous_rejected), "fol": bool(sim.ri_bs._first_or_last_step)}
             guard = {"n": 0}
 
             def hb(sp, guard=guard):
